@@ -53,6 +53,10 @@ func NewT() *T { return &T{} }
 // @testonly
 func Helper() int { return 0 }
 
+// Tok is restricted to a package that does not exist.
+// @packageonly nowhere
+type Tok struct{ N int }
+
 // Impl names a package this file does not import; the test file and the generated file do.
 // @implements zz.Iface
 type Impl struct{} // want IMPL01 dep=d/x.go
@@ -137,6 +141,20 @@ func use(x *d.T, g *d.G, l *legacy.L) {
 	d.Helper() // want TONL02 dep=d/x.go
 }
 `},
+			{Name: "handle_gen.go", Src: `package u
+
+import "ex.com/m/d"
+
+// Handle is an alias of a restricted type, declared in a generated file.
+type Handle = d.Tok // want PKGO01 dep=d/x.go
+`},
+			{Name: "handle_use.go", Src: `package u
+
+func useHandle() int {
+	var h Handle // want PKGO01 dep=d/x.go
+	return h.N
+}
+`},
 			{Name: "u_test.go", Src: `package u
 
 import "ex.com/m/d"
@@ -202,6 +220,10 @@ func c14Strip(src string) string {
 		t := strings.TrimSpace(l)
 		if strings.HasPrefix(t, "// @") {
 			out = append(out, "//")
+			continue
+		}
+		if i := strings.Index(l, " // want"); i > 0 && !strings.HasPrefix(l, "\t") {
+			out = append(out, l[:i]) // a top-level declaration other files depend on stays; only the marker goes
 			continue
 		}
 		if strings.Contains(l, "// want") || strings.Contains(l, "// @ignore") {
